@@ -40,6 +40,9 @@ constexpr auto trunc_check(T const x) noexcept -> T
                           // signed-zero cases
             x == T(0) ? x
                       :
+                      // integral already (|x| >= 2^(digits-1)); may not fit llint_t
+            abs(x) >= T(1) / etl::numeric_limits<T>::epsilon() ? x
+                      :
                       // else
             trunc_int(x)
     );
